@@ -5,6 +5,8 @@
 cd "$(dirname "$0")/.." || exit 2
 export GOFLAGS=-mod=vendor GOPROXY=off GOSUMDB=off GOTOOLCHAIN=local CGO_ENABLED=0
 [ -x bin/vcgo ] || go build -o bin/vcgo ./cmd/vcgo || exit 2
+only=""
+[ "$1" = "--only" ] && only=$2
 fail=0
 tmp=$(mktemp -d /tmp/vcgo-selftest.XXXXXX)
 run_one() { # patch props expect(1=violation,0=green) label
@@ -30,11 +32,13 @@ run_one() { # patch props expect(1=violation,0=green) label
 for d in seeded/*/; do
   [ -f "$d/patch.diff" ] || continue
   prop=$(python3 -c "import json,sys; print(json.load(open('$d/meta.json'))['property'])")
+  [ -n "$only" ] && [ "$prop" != "$only" ] && continue
   run_one "$PWD/$d/patch.diff" "$prop" 1 "$(basename $d)"
 done
 for f in selftest/benign/*.diff; do
   [ -f "$f" ] || continue
   props=$(head -1 "$f" | sed -n 's/^# props: //p')
+  if [ -n "$only" ]; then case " $props " in *" $only "*) props=$only ;; *) continue ;; esac; fi
   run_one "$PWD/$f" "$props" 0 "$(basename $f)"
 done
 rm -rf "$tmp"
